@@ -853,6 +853,8 @@ render_suite(struct regress_html *r, struct suite *suite)
 	HTML_NODE(html, "tr") {
 		VECTOR(struct run) runs = suite->runs;
 		const struct regress_invocation *ri = r->invocations;
+		const struct regress_invocation *end =
+		    ri + VECTOR_LENGTH(r->invocations);
 		size_t i;
 
 		HTML_NODE(html, "td") {
@@ -870,11 +872,13 @@ render_suite(struct regress_html *r, struct suite *suite)
 			const struct run *run = &runs[i];
 
 			/* Compensate for missing run(s). */
-			for (; ri->time > run->time; ri++) {
+			for (; ri < end && ri->time > run->time; ri++) {
 				HTML_NODE(r->html, "td") {
 					/* nothing */
 				}
 			}
+			if (ri == end)
+				break;
 			ri++;
 
 			render_run(r, run);
